@@ -381,8 +381,8 @@ var dynamicExempt = map[string]string{
 // policyExempt lists individual (site, mutex, acquirer) triples that are
 // accepted, each with the reason taken from the code.
 var policyExempt = map[string]string{
-	"capnp.(*Future).Client | blocking receive j | under rpc.Conn.mu taken in rpc.(*Conn).Bootstrap":          "Bootstrap calls q.p.Answer().Client() on the promise newQuestion created in the same critical section: it is unresolved and unpublished, so only the non-blocking isUnresolved branch can run",
-	"capnp.(*Future).Client | blocking receive p.resolved | under rpc.Conn.mu taken in rpc.(*Conn).Bootstrap": "same: the promise is unresolved and unpublished (created by newQuestion under the same hold of Conn.mu)",
+	"capnp.(*Future).Client | blocking receive (*Promise).joined | under rpc.Conn.mu taken in rpc.(*Conn).Bootstrap":        "Bootstrap calls q.p.Answer().Client() on the promise newQuestion created in the same critical section: it is unresolved and unpublished, so only the non-blocking isUnresolved branch can run",
+	"capnp.(*Future).Client | blocking receive (*Promise).resolved | under rpc.Conn.mu taken in rpc.(*Conn).Bootstrap": "same: the promise is unresolved and unpublished (created by newQuestion under the same hold of Conn.mu)",
 }
 
 func rulePolicy(ctx *Ctx, rule string, scope func(*flow.Unit) bool, pol heldPolicy) {
@@ -507,7 +507,7 @@ func rulePolicy(ctx *Ctx, rule string, scope func(*flow.Unit) bool, pol heldPoli
 				}
 			case *ast.UnaryExpr:
 				if x.Op == token.ARROW && !commJudged[x] {
-					key := mkKey("blocking", "receive "+types.ExprString(x.X))
+					key := mkKey("blocking", "receive "+canonExpr(u, x.X, 0))
 					stmt := enclosingCFGNode(u, x)
 					if stmt == nil {
 						r.Exempt(rule, key, ctx.Prog.Rel(x.Pos()), "unreachable in the CFG")
@@ -693,7 +693,7 @@ func ruleTransportOps(ctx *Ctx, rule string) {
 					return true
 				}
 			}
-			if u.Name == "rpc.(*Conn).shutdown" {
+			if u.Name == "rpc.(*Conn).shutdown" || onlyReachedFrom(ctx, u.Name, "rpc.(*Conn).shutdown") {
 				r.Exempt(rule, key, pos, "shutdown runs these after tasks.Wait(): 'shutdown is now the only task running, no need to acquire sender lock'; Conn.mu is not held")
 				return true
 			}
